@@ -138,6 +138,91 @@ func callees(call *ast.CallExpr) []*types.Func {
 	return nil
 }
 
+// localClosures: variables of a function body that are bound once to a function literal and only ever called
+// (x := func() {...}; x()).  Their bodies are walked at each call, with what is held there.
+func localClosures(body *ast.BlockStmt) map[types.Object]*ast.FuncLit {
+	cand := map[types.Object]*ast.FuncLit{}
+	ast.Inspect(body, func(n ast.Node) bool {
+		if as, ok := n.(*ast.AssignStmt); ok && as.Tok == token.DEFINE && len(as.Lhs) == len(as.Rhs) {
+			for i, r := range as.Rhs {
+				if fl, ok := r.(*ast.FuncLit); ok {
+					if id, ok := as.Lhs[i].(*ast.Ident); ok {
+						if obj := info.Defs[id]; obj != nil {
+							cand[obj] = fl
+						}
+					}
+				}
+			}
+		}
+		return true
+	})
+	if len(cand) == 0 {
+		return cand
+	}
+	callPos := map[*ast.Ident]bool{}
+	bad := map[types.Object]bool{}
+	ast.Inspect(body, func(n ast.Node) bool {
+		switch x := n.(type) {
+		case *ast.CallExpr:
+			if id, ok := x.Fun.(*ast.Ident); ok {
+				callPos[id] = true
+			}
+		case *ast.GoStmt:
+			if id, ok := x.Call.Fun.(*ast.Ident); ok {
+				if obj := info.Uses[id]; obj != nil {
+					bad[obj] = true
+				}
+			}
+		case *ast.DeferStmt:
+			if id, ok := x.Call.Fun.(*ast.Ident); ok {
+				if obj := info.Uses[id]; obj != nil {
+					bad[obj] = true
+				}
+			}
+		}
+		return true
+	})
+	ast.Inspect(body, func(n ast.Node) bool {
+		if id, ok := n.(*ast.Ident); ok {
+			if obj := info.Uses[id]; obj != nil {
+				if _, ok := cand[obj]; ok && !callPos[id] {
+					bad[obj] = true // passed on or stored: may run anywhere
+				}
+			}
+		}
+		return true
+	})
+	for obj := range bad {
+		delete(cand, obj)
+	}
+	return cand
+}
+
+var closures map[types.Object]*ast.FuncLit // of the function being walked
+var closureDepth int
+
+func closureOf(call *ast.CallExpr) *ast.FuncLit {
+	if id, ok := call.Fun.(*ast.Ident); ok {
+		if obj := info.Uses[id]; obj != nil {
+			return closures[obj]
+		}
+	}
+	return nil
+}
+
+func isClosureDef(e ast.Expr) bool {
+	fl, ok := e.(*ast.FuncLit)
+	if !ok {
+		return false
+	}
+	for _, c := range closures {
+		if c == fl {
+			return true
+		}
+	}
+	return false
+}
+
 type walker struct {
 	fn       string
 	self     *types.Func
@@ -339,6 +424,12 @@ func (w *walker) expr(e ast.Expr, _ bool) {
 			w.nested(func() { w.stmts(fl.Body.List) })
 			return
 		}
+		if fl := closureOf(x); fl != nil && closureDepth < 4 {
+			closureDepth++
+			w.nested(func() { w.stmts(fl.Body.List) })
+			closureDepth--
+			return
+		}
 		w.expr(x.Fun, false)
 		for _, g := range callees(x) {
 			for c := range acq[g] {
@@ -346,6 +437,9 @@ func (w *walker) expr(e ast.Expr, _ bool) {
 			}
 		}
 	case *ast.FuncLit:
+		if isClosureDef(x) {
+			return // a local closure: walked at its calls
+		}
 		// a literal that is stored or passed: analysed where it stands, with what is held there (callbacks such as
 		// the onEvict passed down run under the caller's locks only if called there; this is the conservative reading)
 		w.nested(func() { w.stmts(x.Body.List) })
@@ -549,7 +643,15 @@ func (w *mwalker) call(x *ast.CallExpr) {
 			w.access(s, true)
 		}
 	}
-	if fl, ok := x.Fun.(*ast.FuncLit); ok {
+	fl, ok := x.Fun.(*ast.FuncLit)
+	if !ok && closureDepth < 4 {
+		if c := closureOf(x); c != nil {
+			fl, ok = c, true
+		}
+	}
+	if ok {
+		closureDepth++
+		defer func() { closureDepth-- }()
 		saved := w.st.clone()
 		w.block(fl.Body.List)
 		// its deferred unlocks end with it: what was held before is held after, minus what it released
@@ -578,6 +680,9 @@ func (w *mwalker) rexpr(e ast.Expr) {
 	case *ast.CallExpr:
 		w.call(x)
 	case *ast.FuncLit:
+		if isClosureDef(x) {
+			return // a local closure: walked at its calls
+		}
 		// stored or passed: runs later, holding nothing for certain
 		saved := w.st
 		w.st = mstate{}
@@ -907,6 +1012,7 @@ func discipline(files []*ast.File, fname func(*types.Func) string) {
 	walkAll := func() map[*types.Func]mstate {
 		all := map[*types.Func]mstate{}
 		for obj, fd := range decls {
+			closures = localClosures(fd.Body)
 			w := &mwalker{fn: fname(obj), st: entry[obj].clone(), sites: map[*types.Func]mstate{}}
 			w.block(fd.Body.List)
 			for g, st := range w.sites {
@@ -1022,6 +1128,7 @@ func main() {
 	for changed := true; changed; {
 		changed = false
 		for obj, fd := range decls {
+			closures = localClosures(fd.Body)
 			w := &walker{fn: fname(obj), self: obj, local: map[string]bool{}}
 			w.stmts(fd.Body.List)
 			for c := range w.local {
